@@ -125,7 +125,7 @@ const IBS: [usize; 3] = [1, 2, 4];
 fn hist_cases() -> u64 {
 	2 * 3 * NHL
 }
-const GRID_CASES: u64 = 4 * 3 * 3; // thing x speed x ibs
+const GRID_CASES: u64 = 5 * 3 * 3; // thing x speed x ibs
 const E2_CASES: u64 = 3;
 const E2S_CASES: u64 = 2;
 /// cancellation family: 3 clocks, every subset dropped, x waiting thing {static, streaming, paused static, paused streaming, resume_at}
@@ -414,13 +414,13 @@ fn run_hist(sr: u32, ibs: usize, letters: &[u8], ctx: &mut Ctx) {
 // ---------------------------------------------------------------------------------------------
 // scheduling grid
 
-const THINGS: [&str; 4] = ["static sound start", "streaming sound start", "volume tween start", "resume_at"];
+const THINGS: [&str; 5] = ["static sound start", "streaming sound start", "volume tween start", "resume_at", "tweener modulator jump (heard through a linked volume)"];
 const SPEEDS: [f64; 3] = [1.0, 2.0, 0.5];
 
 fn dec_grid(i: u64) -> (usize, f64, usize) {
-	let thing = (i % 4) as usize;
-	let speed = SPEEDS[((i / 4) % 3) as usize];
-	let ibs = IBS[((i / 12) % 3) as usize];
+	let thing = (i % 5) as usize;
+	let speed = SPEEDS[((i / 5) % 3) as usize];
+	let ibs = IBS[((i / 15) % 3) as usize];
 	(thing, speed, ibs)
 }
 
@@ -449,17 +449,20 @@ fn grid(tier: Tier, thing: usize, speed: f64, ibs: usize, ctx: &mut Ctx) {
 	compositions(12, &[1, 2, 3, 5], &mut vec![], &mut comps);
 	for ticks in 0..=3u64 {
 		for frac in [0.0, 0.25, 0.5] {
-			for pause_mid in [false, true] {
+			for (pause_mid, late) in [(false, false), (true, false), (false, true), (true, true)] {
 				for (icomp, comp) in comps.iter().enumerate() {
 					if thing == 1 && tier == Tier::Quick && icomp % 8 != 0 {
 						continue; // one decoder thread per scene: the streaming start is sub-sampled in the quick tier
+					}
+					if late && (comp.len() < 5 || (tier == Tier::Quick && icomp % 4 != 0)) {
+						continue;
 					}
 					ctx.evals += 1;
 					ctx.traces += 1;
 					let desc = || {
 						format!(
-							"{} at clock time ({}, {}) speed {} ticks/s internal buffer {} callbacks {:?} clock paused for callbacks 2..4: {}",
-							THINGS[thing], ticks, frac, speed, ibs, comp, pause_mid
+							"{} at clock time ({}, {}) speed {} ticks/s internal buffer {} callbacks {:?} clock paused for callbacks 2..4: {}; {}",
+							THINGS[thing], ticks, frac, speed, ibs, comp, pause_mid, if late { "scheduled before callback 3 (while the clock is paused, if it is)" } else { "scheduled before the clock is started" }
 						)
 					};
 					let r = catch(|| {
@@ -474,36 +477,55 @@ fn grid(tier: Tier, thing: usize, speed: f64, ibs: usize, ctx: &mut Ctx) {
 						let first_dec = pacer::count();
 						let mut static_h = None;
 						let mut stream_h = None;
+						let mut tweener_h = None;
+						macro_rules! schedule_it {
+							() => {
 						match thing {
-							0 => static_h = Some(m.play(dc_loop(sr).start_time(target)).expect("play")),
-							1 => {
-								let (dec, _) = ScriptedDecoder::new(rig::dc_frames(64, 0.5), sr, vec![3], 1);
-								stream_h = Some(m.play(StreamingSoundData::from_decoder(dec).start_time(target)).map_err(|_| ()).expect("play"));
-							}
-							2 => {
-								let mut h = m.play(dc_loop(sr).volume(Decibels::SILENCE)).expect("play");
-								h.set_volume(
-									Value::Fixed(Decibels::IDENTITY),
-									Tween {
-										start_time: StartTime::ClockTime(target),
-										duration: Duration::ZERO,
-										easing: Easing::Linear,
-									},
-								);
-								static_h = Some(h);
-							}
-							_ => {
-								let mut h = m.play(dc_loop(sr)).expect("play");
-								h.pause(tw(0.0));
-								h.resume_at(StartTime::ClockTime(target), tw(0.0));
-								static_h = Some(h);
-							}
+									0 => static_h = Some(m.play(dc_loop(sr).start_time(target)).expect("play")),
+									1 => {
+										let (dec, _) = ScriptedDecoder::new(rig::dc_frames(64, 0.5), sr, vec![3], 1);
+										stream_h = Some(m.play(StreamingSoundData::from_decoder(dec).start_time(target)).map_err(|_| ()).expect("play"));
+									}
+									2 => {
+										let mut h = m.play(dc_loop(sr).volume(Decibels::SILENCE)).expect("play");
+										h.set_volume(
+											Value::Fixed(Decibels::IDENTITY),
+											Tween {
+												start_time: StartTime::ClockTime(target),
+												duration: Duration::ZERO,
+												easing: Easing::Linear,
+											},
+										);
+										static_h = Some(h);
+									}
+									3 => {
+										let mut h = m.play(dc_loop(sr)).expect("play");
+										h.pause(tw(0.0));
+										h.resume_at(StartTime::ClockTime(target), tw(0.0));
+										static_h = Some(h);
+									}
+									_ => {
+										// the same instant, clock-timed tween given to a tweener modulator instead of a parameter
+										let mut twn = m.add_modulator(kira::modulator::tweener::TweenerBuilder { initial_value: 0.0 }).expect("modulator");
+										let mapping = kira::Mapping { input_range: (0.0, 1.0), output_range: (Decibels::SILENCE, Decibels::IDENTITY), easing: Easing::Linear };
+										let mut h = m.play(dc_loop(sr).volume(Decibels::SILENCE)).expect("play");
+										h.set_volume(Value::FromModulator { id: twn.id(), mapping }, tw(0.0));
+										twn.set(1.0, Tween { start_time: StartTime::ClockTime(target), duration: Duration::ZERO, easing: Easing::Linear });
+										static_h = Some(h);
+										tweener_h = Some(twn);
+									}
+								}
+							};
+						}
+						if !late {
+							schedule_it!();
 						}
 						clock.start();
 						model.cmd_start();
 						let mut frame0 = 0usize;
 						let mut first_audible: Option<usize> = None;
 						let mut expected: Option<usize> = None;
+						let mut expected_mod: Option<usize> = None;
 						let mut buf = vec![0.0f32; 16];
 						let mut fails: Vec<(String, String)> = vec![];
 						for (ci, &n) in comp.iter().enumerate() {
@@ -515,6 +537,10 @@ fn grid(tier: Tier, thing: usize, speed: f64, ibs: usize, ctx: &mut Ctx) {
 								clock.start();
 								model.cmd_start();
 							}
+							if late && ci == 3 {
+								schedule_it!();
+							}
+							let scheduled = !late || ci >= 3;
 							if thing == 1 {
 								pacer::step_all_from(first_dec, n as u64 + 6);
 							}
@@ -527,10 +553,15 @@ fn grid(tier: Tier, thing: usize, speed: f64, ibs: usize, ctx: &mut Ctx) {
 							let mut off = 0;
 							while off < n {
 								let len = (n - off).min(ibs);
+								// what a modulator sees: this callback's clock commands applied, the time of the previous buffer's end
+								let c0 = model.now();
+								if scheduled && expected_mod.is_none() && c0.ticking && (c0.ticks, c0.fraction) >= (ticks, frac) {
+									expected_mod = Some(frame0 + off);
+								}
 								model.update(dt * len as f64, None);
 								let c = model.now();
 								// the thing begins in the buffer during which the (ticking) clock reaches the target
-								if expected.is_none() && c.ticking && (c.ticks, c.fraction) >= (ticks, frac) {
+								if scheduled && expected.is_none() && c.ticking && (c.ticks, c.fraction) >= (ticks, frac) {
 									expected = Some(frame0 + off);
 								}
 								off += len;
@@ -554,7 +585,13 @@ fn grid(tier: Tier, thing: usize, speed: f64, ibs: usize, ctx: &mut Ctx) {
 						} else {
 							first_audible == expected
 						};
-						if !ok {
+						if !ok && thing == 4 && first_audible == expected_mod {
+							// one root cause, one signature (recorded finding)
+							fails.push((
+								"a clock-timed tween of a tweener modulator begins one internal buffer late: modulators are updated before the clocks of the same buffer and see the previous buffer's clock time".to_string(),
+								format!("first audible frame {:?}; the clock reaches the time (while ticking) in the buffer starting at frame {:?}", first_audible, expected),
+							));
+						} else if !ok {
 							let kind = match (first_audible, expected) {
 								(Some(a), Some(e)) if a > e => "late",
 								(Some(_), Some(_)) => "early",
@@ -580,6 +617,7 @@ fn grid(tier: Tier, thing: usize, speed: f64, ibs: usize, ctx: &mut Ctx) {
 								fails.push(("waiting sound not Stopped after its clock was removed".into(), format!("state {:?}", st)));
 							}
 						}
+						drop(tweener_h);
 						// teardown of decoder threads
 						if let Some(h) = stream_h.as_mut() {
 							h.stop(tw(0.0));
